@@ -168,6 +168,87 @@ def build_runtime_check(ctx, r, rule):
 
 
 
+def unmanaged_timeout_table(ctx, RULE):
+    """decision table of the unmanaged timeout_get / get (shared by C10 and C12: a zero timeout must not reach the timer)"""
+    prog = ctx.prog
+    # ---- R10.7 unmanaged timeout_get -----------------------------------------------------------------------------------------
+    u = uroles(ctx)
+    # the decision may sit in an async helper of timeout_get: the coroutine (timeout_get itself or one it awaits) that
+    # matches on (the per-call timeout, the configured runtime); the timeout is the captured Option<Duration>, whatever its name
+    cands = [u.TIMEOUT_GET] + [prog.bodies[blk.term.rcallee] for blk in u.TIMEOUT_GET.blocks if blk.term.kind == 'call' and not blk.cleanup and blk.term.rcallee in prog.bodies and
+                               prog.bodies[blk.term.rcallee].is_coroutine and blk.term.rcallee.startswith('deadpool::unmanaged')]
+    tg = u.TIMEOUT_GET; u_role = None
+    def make_role(cand):
+        tnames = cand.upvars_of_type('std::option::Option<std::time::Duration>')
+        def role(src):
+            if any(x[0] == 'upvar' and x[1].split('.')[0] in tnames for x in src) and not any(x[0] == 'field' and x[1].endswith('PoolConfig.runtime') for x in src):
+                return 'timeout'
+            if any(x[0] == 'field' and x[1].endswith('PoolConfig.runtime') for x in src) and not any(x[0] == 'upvar' and x[1].split('.')[0] in tnames for x in src):
+                return 'runtime'
+            return None
+        return role
+    for cand in cands:
+        can_ = prog.an(cand)
+        role = make_role(cand)
+        seen_roles = {role(sources(can_, Operand({'c': blk.term.j['on']}))) for blk in cand.blocks
+                      if blk.term.kind == 'switch' and blk.term.j.get('adt') == 'std::option::Option' and 'on' in blk.term.j}
+        if {'timeout', 'runtime'} <= seen_roles:
+            tg, u_role = cand, role
+    tan = prog.an(tg)
+    ctx.saw(tg)
+    if u_role is None:
+        ctx.undecide(RULE, 'unmanaged timeout_get: the decisions on (timeout, runtime) were not found')
+    else:
+        zt = lambda blk: is_zero_test(tan, blk)
+        nz = len([1 for blk in tg.blocks if zt(blk)])
+        ctx.ob(RULE, 'unmanaged timeout_get has one zero-duration test', nz == 1, ctx.where(tg), '%d tests' % nz, construct='u-timeout:zero-test')
+        rows = {
+            ('None', 'None', None): ({'acquire', 'yield'}, {'Runtime::timeout', 'try_acquire', 'err:NoRuntimeSpecified'}),
+            ('None', 'Some', None): ({'acquire', 'yield'}, {'Runtime::timeout', 'try_acquire', 'err:NoRuntimeSpecified'}),
+            ('Some', 'None', True): ({'try_acquire'}, {'yield', 'Runtime::timeout', 'err:NoRuntimeSpecified', 'acquire'}),
+            ('Some', 'Some', True): ({'try_acquire'}, {'yield', 'Runtime::timeout', 'err:NoRuntimeSpecified', 'acquire'}),
+            ('Some', 'Some', False): ({'Runtime::timeout', 'acquire', 'err:Timeout'}, {'try_acquire', 'err:NoRuntimeSpecified'}),
+            ('Some', 'None', False): ({'err:NoRuntimeSpecified'}, {'try_acquire', 'acquire', 'Runtime::timeout', 'yield'}),
+        }
+        # only the part of the body up to the pop matters: cut at the queue pop
+        pops = [x.idx for x, m in u.queue_calls(tg) if m == 'pop']
+        for (tv, rv_, zero), (must, mustnot) in rows.items():
+            dec = origin_decider(tan, u_role, {'timeout': tv, 'runtime': rv_}, zt, zero)
+            def dec2(blk, dec=dec):
+                return dec(blk)
+            blocks = explore(tan, dec2)
+            # drop everything after the pop
+            after = set()
+            for p_ in pops:
+                after |= tan.reach_after(p_, ('normal',))
+            got = events_in(tan, blocks - after, tg)
+            ok = must <= got and not (mustnot & got)
+            ctx.ob(RULE, 'unmanaged timeout_get row (timeout %s, runtime %s, zero %s)' % (tv, rv_, zero), ok, ctx.where(tg),
+                   'events %s; required %s; forbidden %s' % (sorted(got), sorted(must), sorted(mustnot)), construct='u-timeout:row:%s:%s:%s' % (tv, rv_, zero), sites=sorted(got))
+        for blk in tg.blocks:
+            if blk.term.kind == 'call' and 'deadpool_runtime::Runtime::timeout' in blk.term.callee_names() and not blk.cleanup:
+                s1 = sources(tan, blk.term.args[1])
+                ctx.ob(RULE, 'Runtime::timeout gets the per-call timeout', any(x[0] == 'upvar' and x[1].split('.')[0] in tg.upvars_of_type('std::option::Option<std::time::Duration>') for x in s1), ctx.where(tg, blk.term.line), '', construct='u-timeout:duration')
+
+    # unmanaged get() waits under the configured timeout
+    ug = [b_ for b_ in prog.bodies.values() if b_.is_coroutine and b_.name == 'deadpool::unmanaged::Pool::get::{closure#0}']
+    if len(ug) != 1:
+        ctx.undecide(RULE, 'unmanaged Pool::get coroutine not found')
+    else:
+        gb = ug[0]; gan = prog.an(gb)
+        ctx.saw(gb)
+        ctor = u.TIMEOUT_GET.j.get('parent')
+        calls = [blk for blk in gb.blocks if blk.term.kind == 'call' and not blk.cleanup and blk.term.rcallee == ctor]
+        okg = False; det = '%d calls of timeout_get' % len(calls)
+        if len(calls) == 1:
+            src = sources(gan, calls[0].term.args[1], deep=True)
+            okg = any(x[0] == 'field' and x[1] == 'deadpool::unmanaged::config::PoolConfig.timeout' for x in src) and not any(x[0] == 'agg' and x[1].startswith('std::option::Option') for x in src) \
+                and not any(x[0] == 'const' and not str(x[1]).startswith('fn') for x in src)
+            det = 'argument from %s' % sorted({str(x[1]) for x in src if x[0] in ('field', 'agg', 'const')})
+        ctx.ob(RULE, 'unmanaged get() waits under the configured timeout', okg, ctx.where(gb), det, construct='u-get:configured-timeout')
+
+
+
 def run(ctx):
     r = roles(ctx)
     prog = ctx.prog
@@ -422,81 +503,7 @@ def run(ctx):
     builder_plumbing(ctx, 'R10.10', ['timeouts', 'wait_timeout', 'create_timeout', 'recycle_timeout', 'config', 'runtime'])
     pool_level_timeouts(ctx, r, 'R10.10')
 
-    # ---- R10.7 unmanaged timeout_get -----------------------------------------------------------------------------------------
-    u = uroles(ctx)
-    # the decision may sit in an async helper of timeout_get: the coroutine (timeout_get itself or one it awaits) that
-    # matches on (the per-call timeout, the configured runtime); the timeout is the captured Option<Duration>, whatever its name
-    cands = [u.TIMEOUT_GET] + [prog.bodies[blk.term.rcallee] for blk in u.TIMEOUT_GET.blocks if blk.term.kind == 'call' and not blk.cleanup and blk.term.rcallee in prog.bodies and
-                               prog.bodies[blk.term.rcallee].is_coroutine and blk.term.rcallee.startswith('deadpool::unmanaged')]
-    tg = u.TIMEOUT_GET; u_role = None
-    def make_role(cand):
-        tnames = cand.upvars_of_type('std::option::Option<std::time::Duration>')
-        def role(src):
-            if any(x[0] == 'upvar' and x[1].split('.')[0] in tnames for x in src) and not any(x[0] == 'field' and x[1].endswith('PoolConfig.runtime') for x in src):
-                return 'timeout'
-            if any(x[0] == 'field' and x[1].endswith('PoolConfig.runtime') for x in src) and not any(x[0] == 'upvar' and x[1].split('.')[0] in tnames for x in src):
-                return 'runtime'
-            return None
-        return role
-    for cand in cands:
-        can_ = prog.an(cand)
-        role = make_role(cand)
-        seen_roles = {role(sources(can_, Operand({'c': blk.term.j['on']}))) for blk in cand.blocks
-                      if blk.term.kind == 'switch' and blk.term.j.get('adt') == 'std::option::Option' and 'on' in blk.term.j}
-        if {'timeout', 'runtime'} <= seen_roles:
-            tg, u_role = cand, role
-    tan = prog.an(tg)
-    ctx.saw(tg)
-    if u_role is None:
-        ctx.undecide('R10.7', 'unmanaged timeout_get: the decisions on (timeout, runtime) were not found')
-    else:
-        zt = lambda blk: is_zero_test(tan, blk)
-        nz = len([1 for blk in tg.blocks if zt(blk)])
-        ctx.ob('R10.7', 'unmanaged timeout_get has one zero-duration test', nz == 1, ctx.where(tg), '%d tests' % nz, construct='u-timeout:zero-test')
-        rows = {
-            ('None', 'None', None): ({'acquire', 'yield'}, {'Runtime::timeout', 'try_acquire', 'err:NoRuntimeSpecified'}),
-            ('None', 'Some', None): ({'acquire', 'yield'}, {'Runtime::timeout', 'try_acquire', 'err:NoRuntimeSpecified'}),
-            ('Some', 'None', True): ({'try_acquire'}, {'yield', 'Runtime::timeout', 'err:NoRuntimeSpecified', 'acquire'}),
-            ('Some', 'Some', True): ({'try_acquire'}, {'yield', 'Runtime::timeout', 'err:NoRuntimeSpecified', 'acquire'}),
-            ('Some', 'Some', False): ({'Runtime::timeout', 'acquire', 'err:Timeout'}, {'try_acquire', 'err:NoRuntimeSpecified'}),
-            ('Some', 'None', False): ({'err:NoRuntimeSpecified'}, {'try_acquire', 'acquire', 'Runtime::timeout', 'yield'}),
-        }
-        # only the part of the body up to the pop matters: cut at the queue pop
-        pops = [x.idx for x, m in u.queue_calls(tg) if m == 'pop']
-        for (tv, rv_, zero), (must, mustnot) in rows.items():
-            dec = origin_decider(tan, u_role, {'timeout': tv, 'runtime': rv_}, zt, zero)
-            def dec2(blk, dec=dec):
-                return dec(blk)
-            blocks = explore(tan, dec2)
-            # drop everything after the pop
-            after = set()
-            for p_ in pops:
-                after |= tan.reach_after(p_, ('normal',))
-            got = events_in(tan, blocks - after, tg)
-            ok = must <= got and not (mustnot & got)
-            ctx.ob('R10.7', 'unmanaged timeout_get row (timeout %s, runtime %s, zero %s)' % (tv, rv_, zero), ok, ctx.where(tg),
-                   'events %s; required %s; forbidden %s' % (sorted(got), sorted(must), sorted(mustnot)), construct='u-timeout:row:%s:%s:%s' % (tv, rv_, zero), sites=sorted(got))
-        for blk in tg.blocks:
-            if blk.term.kind == 'call' and 'deadpool_runtime::Runtime::timeout' in blk.term.callee_names() and not blk.cleanup:
-                s1 = sources(tan, blk.term.args[1])
-                ctx.ob('R10.7', 'Runtime::timeout gets the per-call timeout', any(x[0] == 'upvar' and x[1].split('.')[0] in tg.upvars_of_type('std::option::Option<std::time::Duration>') for x in s1), ctx.where(tg, blk.term.line), '', construct='u-timeout:duration')
-
-    # unmanaged get() waits under the configured timeout
-    ug = [b_ for b_ in prog.bodies.values() if b_.is_coroutine and b_.name == 'deadpool::unmanaged::Pool::get::{closure#0}']
-    if len(ug) != 1:
-        ctx.undecide('R10.7', 'unmanaged Pool::get coroutine not found')
-    else:
-        gb = ug[0]; gan = prog.an(gb)
-        ctx.saw(gb)
-        ctor = u.TIMEOUT_GET.j.get('parent')
-        calls = [blk for blk in gb.blocks if blk.term.kind == 'call' and not blk.cleanup and blk.term.rcallee == ctor]
-        okg = False; det = '%d calls of timeout_get' % len(calls)
-        if len(calls) == 1:
-            src = sources(gan, calls[0].term.args[1], deep=True)
-            okg = any(x[0] == 'field' and x[1] == 'deadpool::unmanaged::config::PoolConfig.timeout' for x in src) and not any(x[0] == 'agg' and x[1].startswith('std::option::Option') for x in src) \
-                and not any(x[0] == 'const' and not str(x[1]).startswith('fn') for x in src)
-            det = 'argument from %s' % sorted({str(x[1]) for x in src if x[0] in ('field', 'agg', 'const')})
-        ctx.ob('R10.7', 'unmanaged get() waits under the configured timeout', okg, ctx.where(gb), det, construct='u-get:configured-timeout')
+    unmanaged_timeout_table(ctx, 'R10.7')
 
     # ---- R10.8 deadpool-runtime ----------------------------------------------------------------------------------------------
     rt = prog.body('deadpool_runtime::Runtime::timeout::{closure#0}')
